@@ -112,6 +112,7 @@ type Replica struct {
 	Follow       bool // reveal one block at a time
 	PerHeight    bool // record a dump hash after every commit
 	StallBudget  int  // failed attempts at one height tolerated before giving up
+	SchedTarget  uint32
 	DisableForks bool
 	SyncVersion  int  // build sync-version of the next lifetime
 	SetVersion   bool // apply SyncVersion (otherwise pegnet.PegnetdSyncVersion is left as is)
@@ -121,9 +122,14 @@ type Replica struct {
 	Exit      string           // non-empty: the daemon exited (fatal / panic)
 	ExitStack string
 	Commits   int
-	StartErr  error
+	// LastCommitted is the height of the last block whose COMMIT returned.
+	LastCommitted uint32
+	StartErr      error
 	Lifetimes int
 	SQL       SQLHooks // user hooks (called in addition to the replica's own bookkeeping)
+	// Sched, when set before Start, parks every SQL statement and every upstream
+	// request of every goroutine until the scheduler releases it (C18).
+	Sched *Sched
 	OnCommit  func(h uint32)
 
 	ctx    context.Context
@@ -191,6 +197,18 @@ func (r *Replica) Start() error {
 	n.Pegnet.DB.Close()
 	n.Pegnet.DB = OpenDB(r.dsn(), &SQLHooks{Before: r.before, After: r.after}, r.W.Spec.Config.CachePages)
 	n.FactomClient.Factomd.Client.Transport = r.Tr
+	r.Tr.Sched = r.Sched
+	if r.Sched != nil {
+		r.Tr.HeightsCh = nil
+		r.Tr.OnHeights = func() uint32 {
+			// the sync loop polls: reveal the next block once the previous one is committed
+			tip := r.Tr.tip
+			if r.Node.Sync.Synced >= tip && tip < r.SchedTarget {
+				tip++
+			}
+			return tip
+		}
+	}
 	r.Node = n
 	r.Tr.Down = false
 	r.ro, err = OpenRO(r.DBFile())
@@ -198,6 +216,7 @@ func (r *Replica) Start() error {
 		return err
 	}
 	r.last = n.Sync.Synced
+	r.LastCommitted = n.Sync.Synced
 	r.stall = 0
 	r.exitCh = make(chan struct{})
 	r.inBlock = false
@@ -221,6 +240,9 @@ func (r *Replica) Start() error {
 func isDaemon(caller string) bool { return !strings.HasPrefix(caller, "api:") }
 
 func (r *Replica) before(ev *SQLEvent) error {
+	if r.Sched != nil {
+		r.Sched.Park("sql", ev.Caller, ev.Op)
+	}
 	if isDaemon(ev.Caller) {
 		if ev.Op == "begin" {
 			r.inBlock = true
@@ -251,6 +273,7 @@ func (r *Replica) after(ev *SQLEvent, err error) {
 	}
 	if ev.Op == "commit" && err == nil {
 		r.Commits++
+		r.LastCommitted = r.BlockHeight
 		if r.PerHeight {
 			d, derr := TakeDump(r.ro, false)
 			if derr == nil {
@@ -386,21 +409,6 @@ func CopyDir(src, dst string) error {
 	return nil
 }
 
-// Sched is the cooperative scheduler used when several goroutines (sync loop,
-// fetch workers, API clients) are interleaved under simulator control.
-type Sched struct {
-	ch chan *parked
-}
-
-func NewSched() *Sched { return &Sched{ch: make(chan *parked)} }
-
-// Park blocks the calling goroutine until the scheduler releases it.
-func (s *Sched) Park(kind, caller, key string) {
-	p := &parked{kind: kind, caller: caller, key: key, reply: make(chan struct{})}
-	s.ch <- p
-	<-p.reply
-}
-
 // RO is the replica's observation connection (valid during a lifetime).
 func (r *Replica) RO() *sql.DB { return r.ro }
 
@@ -411,3 +419,34 @@ var Abort = make(chan struct{})
 
 // ResetAbort arms a fresh abort channel (called at the start of each bubble).
 func ResetAbort() { Abort = make(chan struct{}) }
+
+// StopScheduled ends a lifetime that runs under the scheduler: context
+// cancelled, transport down, every parked goroutine released until the sync
+// loop and the given extra goroutines (API clients) are gone.
+func (r *Replica) StopScheduled(clientsDone <-chan struct{}) {
+	if r.Node == nil {
+		return
+	}
+	r.cancel()
+	r.Tr.mu.Lock()
+	r.Tr.Down = true
+	r.Tr.mu.Unlock()
+	stop := make(chan struct{})
+	go func() {
+		<-r.exitCh
+		if clientsDone != nil {
+			<-clientsDone
+		}
+		close(stop)
+	}()
+	r.Sched.Release(stop)
+	r.Node.Pegnet.DB.Close()
+	if r.ro != nil {
+		r.ro.Close()
+		r.ro = nil
+	}
+	r.Node = nil
+}
+
+// ExitCh is closed when the sync loop goroutine has ended.
+func (r *Replica) ExitCh() <-chan struct{} { return r.exitCh }
